@@ -144,7 +144,7 @@ LEAVES = [
     ("SUBJECT hello", lambda i: i == 0), ("SUBJECT SUBJECT", lambda i: i == 2), ('SUBJECT ""', lambda i: True), ("FROM example.com", lambda i: i in (0, 1)), ("TO bob", lambda i: i == 0), ("CC dave", lambda i: i == 1), ("BCC x", lambda i: False),
     ("HEADER X-Tag alpha", lambda i: i == 1), ('HEADER X-Tag ""', lambda i: i == 1), ("HEADER date 2024", lambda i: i in (0, 1)),
     ("BODY second", lambda i: i == 1), ("BODY subject", lambda i: False), ("TEXT subject", lambda i: i in (0, 1, 2)), ("TEXT alice", lambda i: i == 0), ('BODY "body text"', lambda i: i == 0),
-    ("UID {u}", "uid="), ("UID {u}:*", "uid>="), ("{s}", "seq="), ("{s}:*", "seq>="), ("NOT {s}", "seq!="), ("1:3", lambda i: True),
+    ("UID {u}", "uid="), ("UID {u}:*", "uid>="), ("UID *", "uid*"), ("NOT UID *", "uid!*"), ("{s}", "seq="), ("{s}:*", "seq>="), ("NOT {s}", "seq!="), ("1:3", lambda i: True),
 ]
 
 
@@ -178,6 +178,8 @@ def _leaf(k, n, z1, z2, z3, u, s, uid):
         elif ev.startswith("uid"):
             u = env.realize(u)
             text = tmpl.replace("{u}", str(u))
+            # the highest UID may have been expunged earlier: UIDNEXT is 1..3 above the last live UID
+            mb.next_uid = uids[-1] + env.realize(s)
         else:
             s = env.realize(s)
             text = tmpl.replace("{s}", str(s))
@@ -206,6 +208,10 @@ def _leaf(k, n, z1, z2, z3, u, s, uid):
             m = uids[i] == u
         elif ev == "uid>=":
             m = uids[i] >= min(u, uids[-1])
+        elif ev == "uid*":
+            m = uids[i] == uids[-1]
+        elif ev == "uid!*":
+            m = uids[i] != uids[-1]
         elif ev == "seq=":
             m = i + 1 == s
         elif ev == "seq>=":
